@@ -217,46 +217,31 @@ Section Loop.
                 end
     end.
 
-  Lemma count_until_sig_loop (body : Z -> option verdict) t addrs (full : list (sig H)) :
-    (forall pre s suf, full = pre ++ s :: suf ->
-                       body (Z.of_nat (length pre)) = sig_step t (nth_error addrs (length pre)) s) ->
-    forall suf pre, full = pre ++ suf ->
-      match gen_count_until body (length suf) (Z.of_nat (length pre)) with
-      | Some v => v | None => Accept end
-      = sig_loop H H_eqb hash t addrs suf (length pre).
+  (* The translator emits both spellings of the loop over the signatures (index loop whose body
+     starts with `signature := l[i]`, range loop) as one range form. *)
+  Lemma range_until_sig_loop (body : Z -> sig H -> option verdict) t addrs :
+    (forall i s, body (Z.of_nat i) s = sig_step t (nth_error addrs i) s) ->
+    forall suf i,
+      match gen_range_until body suf (Z.of_nat i) with Some v => v | None => Accept end
+      = sig_loop H H_eqb hash t addrs suf i.
   Proof.
-    intros Hb suf. induction suf as [|s r IH]; intros pre Hf.
+    intros Hb suf. induction suf as [|s r IH]; intros i.
     - reflexivity.
-    - cbn [length gen_count_until sig_loop]. rewrite (Hb pre s r Hf). unfold sig_step.
-      destruct (nth_error addrs (length pre)) as [a|]; [|reflexivity].
+    - cbn [gen_range_until sig_loop]. rewrite (Hb i s). unfold sig_step.
+      destruct (nth_error addrs i) as [a|]; [|reflexivity].
       destruct (check t s a) as [[|]|]; try reflexivity.
-      specialize (IH (pre ++ [s])). rewrite app_length in IH. cbn [length] in IH.
-      replace (Z.of_nat (length pre + 1)) with (Z.of_nat (length pre) + 1) in IH by lia.
-      replace (length pre + 1)%nat with (S (length pre)) in IH by lia.
-      apply IH. rewrite <- app_assoc. exact Hf.
+      replace (Z.of_nat i + 1) with (Z.of_nat (S i)) by lia. apply IH.
   Qed.
 
-  Lemma sig_loop_body_spec (body : Z -> option verdict) t addrs (sigs : list (sig H)) :
-    (forall i, body i =
-       match gen_index sigs i with
-       | None => Some Panic
-       | Some s =>
-           match gen_index addrs i with
-           | None => Some Panic
-           | Some a =>
-               match check t s a with
-               | None => Some (Reject RCheckError)
-               | Some v => if negb v then Some (Reject RInvalidSig) else None
-               end
-           end
-       end) ->
-    forall pre s suf, sigs = pre ++ s :: suf ->
-      body (Z.of_nat (length pre)) = sig_step t (nth_error addrs (length pre)) s.
-  Proof.
-    intros Hb pre s suf Hs. rewrite Hb, !gen_index_nat, Hs, nth_error_split. unfold sig_step.
-    destruct (nth_error addrs (length pre)) as [a|]; [|reflexivity].
-    destruct (check t s a) as [[|]|]; reflexivity.
-  Qed.
+  (* the loop body the translator produced decides what the model decides at one signature:
+     the signer paired with signature number i is addrs[i]; every atom is split, so the way
+     the tests on the result of CheckSignature are written does not matter *)
+  Ltac sig_body_spec :=
+    let i := fresh "i" in let s := fresh "s" in
+    intros i s; rewrite ?gen_index_nat; unfold sig_step, signed_tuple;
+    destruct (nth_error _ i) as [?a|]; [|reflexivity];
+    match goal with |- context [check ?t s ?a] => destruct (check t s a) as [[|]|] end;
+    reflexivity.
 
   (* ---- ValidateDecryptionKeysSignatures, both flavours ------------------------------------ *)
 
@@ -275,9 +260,9 @@ Section Loop.
     destruct (validate_signer_indices signers (length (ks_keypers ks))); try reflexivity.
     destruct (get_subset (ks_keypers ks) signers) as [addrs| |]; try reflexivity.
     destruct (1024 <? length (m_ids m))%nat; [reflexivity|].
-    match goal with |- match gen_count_until ?b _ _ with _ => _ end = _ => set (body := b) end.
-    apply (count_until_sig_loop body (signed_tuple Gnosis m) addrs sigs) with (pre := []); [|reflexivity].
-    apply sig_loop_body_spec. intros i. reflexivity.
+    match goal with |- match gen_range_until ?b _ _ with _ => _ end = _ => set (body := b) end.
+    apply (range_until_sig_loop body (signed_tuple Gnosis m) addrs) with (i := 0%nat).
+    unfold body. sig_body_spec.
   Qed.
 
   Theorem service_validate_sigs_agrees ks m signers sigs :
@@ -297,9 +282,9 @@ Section Loop.
     destruct (validate_signer_indices signers (length (ks_keypers ks))); try reflexivity.
     destruct (get_subset (ks_keypers ks) signers) as [addrs| |]; try reflexivity.
     destruct (1024 <? length (m_ids m))%nat; [reflexivity|].
-    match goal with |- match gen_count_until ?b _ _ with _ => _ end = _ => set (body := b) end.
-    apply (count_until_sig_loop body (signed_tuple Service m) addrs sigs) with (pre := []); [|reflexivity].
-    apply sig_loop_body_spec. intros i. reflexivity.
+    match goal with |- match gen_range_until ?b _ _ with _ => _ end = _ => set (body := b) end.
+    apply (range_until_sig_loop body (signed_tuple Service m) addrs) with (i := 0%nat).
+    unfold body. sig_body_spec.
   Qed.
 
   (* ---- ValidateDecryptionKeysBasic and the chains ------------------------------------------ *)
